@@ -89,7 +89,7 @@ package ice
 //@
 //@ func (*Segment).dictionary
 //@   safety[C08,C18,C19] nil idx slice map
-//@   requires[C08,C18,C19] s != nil
+//@   requires[C08,C18] s != nil
 //@   ensures[C08,C18] err == nil && s.fieldsMap[field] == 0 ==> rv == nil
 //@   ensures[C08,C18] err == nil && s.fieldsMap[field] > 0 ==> rv != nil && rv.sb == s && rv.fieldID == s.fieldsMap[field] - 1
 //@   ensures[C08,C18,C19] err != nil ==> rv == nil
